@@ -68,11 +68,13 @@ func c02Token(r *Rng, k Kind, pay *Payloads, class int) string {
 		return "--multi"
 	case 13: // hostile plain
 		return r.Pick(HostilePlain)
+	case 14: // Bundling: the option as a letter of a bundle, with flags and another argument-taking letter around it
+		return r.Pick([]string{"-m", "-fm", "-mf", "-sm", "-ms", "-fsm", "-mm", "-smf"})
 	}
 	return pay.Pos()
 }
 
-const c02NClasses = 14
+const c02NClasses = 15
 
 type c02Model struct {
 	items      []*Item
@@ -146,6 +148,67 @@ func c02Interpret(t *Tree, multi *Opt, argv []string) (*Scenario, bool) {
 				}
 			}
 			s.Items = append(s.Items, it)
+		case t.Prog.Mode == 1 && isC02Bundle(tok):
+			// Bundling: letters are handled left to right, every letter that takes arguments takes them from the tokens that follow
+			i++
+			failed := false
+			for _, l := range tok[1:] {
+				switch l {
+				case 'f':
+					s.Items = append(s.Items, &Item{K: IFlag, Opt: node.KeyTable()["f"], Key: "f", Typed: "f", Level: node.Path})
+				case 's':
+					if i >= len(argv) || IsOptLooking(argv[i]) {
+						failed = true
+						break
+					}
+					s.Items = append(s.Items, &Item{K: IValued, Opt: node.KeyTable()["s"], Key: "s", Typed: "s", Vals: []string{argv[i]}, Level: node.Path})
+					i++
+				case 'm':
+					it := &Item{K: IMulti, Opt: multi, Key: "m", Typed: "m", Level: node.Path}
+					consumed := 0
+					for consumed < multi.Min {
+						if i >= len(argv) || IsOptLooking(argv[i]) {
+							failed = true
+							break
+						}
+						it.Vals = append(it.Vals, argv[i])
+						consumed++
+						i++
+					}
+					if failed {
+						break
+					}
+					for consumed < multi.Max {
+						if i >= len(argv) || IsOptLooking(argv[i]) || argv[i] == "--" || !wellFormed(multi.Kind, argv[i]) {
+							break
+						}
+						it.Vals = append(it.Vals, argv[i])
+						consumed++
+						i++
+					}
+					if multi.Kind == KInts {
+						for j, v := range it.Vals {
+							if strings.Contains(v, "..") && j < multi.Min {
+								parts := strings.SplitN(v, "..", 2)
+								a, e1 := strconv.Atoi(parts[0])
+								b, e2 := strconv.Atoi(parts[1])
+								if e1 == nil && e2 == nil && a >= b {
+									unasserted = true
+								}
+							}
+						}
+					}
+					s.Items = append(s.Items, it)
+				}
+				if failed {
+					break
+				}
+			}
+			if failed {
+				s.Items = append(s.Items, &Item{K: IRaw, Tokens: []string{tok}})
+				s.Argv = argv
+				return s, unasserted
+			}
 		case tok == "-" || IsOptLooking(tok):
 			name := strings.TrimLeft(tok, "-")
 			if tok == "-" {
@@ -168,9 +231,10 @@ func c02Interpret(t *Tree, multi *Opt, argv []string) (*Scenario, bool) {
 }
 
 func c02Prog(kind Kind, min, max, mode, unknown int, useVar bool) *Prog {
-	multi := &Opt{ID: 0, Kind: kind, Name: "multi", Min: min, Max: max, UseVar: useVar}
-	fl := &Opt{ID: 1, Kind: KBool, Name: "fl"}
-	return &Prog{Mode: mode, Unknown: unknown, Root: &Cmd{Unknown: -1, HasFn: true, Opts: []*Opt{multi, fl},
+	multi := &Opt{ID: 0, Kind: kind, Name: "multi", Aliases: []string{"m"}, Min: min, Max: max, UseVar: useVar}
+	fl := &Opt{ID: 1, Kind: KBool, Name: "fl", Aliases: []string{"f"}}
+	str := &Opt{ID: 2, Kind: KString, Name: "str", Aliases: []string{"s"}}
+	return &Prog{Mode: mode, Unknown: unknown, Root: &Cmd{Unknown: -1, HasFn: true, Opts: []*Opt{multi, fl, str},
 		Cmds: []*Cmd{{Name: "cmd", Unknown: -1, HasFn: true}}}}
 }
 
@@ -187,7 +251,7 @@ type c02Case struct {
 var c02MinMax = [][2]int{{1, 1}, {1, 2}, {1, 3}, {1, 4}, {2, 2}, {2, 3}, {2, 4}, {3, 3}, {3, 4}, {4, 4}, {1, 9}, {2, 50}}
 
 // grid size: kind(4) x minmax(12) x attached(2) x nPre(0..3 well-formed before the probe) x probe class(14) x position(2)
-const c02Grid = 4 * 12 * 2 * 4 * c02NClasses * 2
+const c02Grid = 4 * 12 * 2 * 4 * c02NClasses * 2 // kind x (min,max) x attached x pre x probe x position
 
 func c02Build(seed uint64, idx int, tier string) *c02Case {
 	r := CaseRng(seed, "C02", idx)
@@ -209,6 +273,9 @@ func c02Build(seed uint64, idx int, tier string) *c02Case {
 		pos := g % 2
 		c.min, c.max = mm[0], mm[1]
 		c.mode = r.Intn(3)
+		if probe == 14 {
+			c.mode = 1
+		}
 		c.unknown = []int{2, 2, 1, 0}[r.Intn(4)]
 		if pos == 1 {
 			c.argv = append(c.argv, pay.Pos())
@@ -239,14 +306,19 @@ func c02Build(seed uint64, idx int, tier string) *c02Case {
 		if r.Chance(1, 3) {
 			c.argv = append(c.argv, c02Token(r, c.kind, pay, []int{4, 5, 6, 13}[r.Intn(4)]))
 		}
-		if r.Bool() {
+		if c.mode == 1 && r.Chance(1, 2) {
+			c.argv = append(c.argv, c02Token(r, c.kind, pay, 14))
+		} else if r.Bool() {
 			c.argv = append(c.argv, "--multi="+c02Token(r, c.kind, pay, []int{0, 0, 0, 10, 13, 3}[r.Intn(6)]))
 			c.attached = true
 		} else {
 			c.argv = append(c.argv, "--multi")
 		}
 		for i := 0; i < n/occ+1; i++ {
-			cl := r.Weighted([]int{8, 2, 2, 2, 2, 2, 1, 1, 1, 1, 2, 1, 1, 2})
+			cl := r.Weighted([]int{8, 2, 2, 2, 2, 2, 1, 1, 1, 1, 2, 1, 1, 2, 1})
+			if cl == 14 && c.mode != 1 {
+				cl = 4 // bundles only exist in Bundling mode
+			}
 			c.argv = append(c.argv, c02Token(r, c.kind, pay, cl))
 		}
 	}
@@ -258,7 +330,7 @@ func init() {
 	fw.Register(&fw.Check{
 		ID:        "C02",
 		Technique: "runtime monitor: local consumption model (the statement, literally) deciding which tokens a multi-value occurrence takes, compared with what the real Parse stored (values in order, conversions, ranges, map split) and left over (remaining, flag, command)",
-		Rule: "quick enumerates the grid kind(4) x (min,max)(12) x attached(2) x well-formed elements before the probe(0-3) x probe token class(14: element, number, float, key=value, word, known flag, unknown option, `-`, `--`, command name, int range, further occurrence attached/detached, hostile text) x position(2) completely; " +
+		Rule: "quick enumerates the grid kind(4) x (min,max)(12) x attached(2) x well-formed elements before the probe(0-3) x probe token class(15: element, number, float, key=value, word, known flag, unknown option, `-`, `--`, command name, int range, further occurrence attached/detached, hostile text, Bundling-mode bundle holding the option with flags and another argument-taking letter) x position(2) completely; " +
 			"thorough adds random runs of up to 3 occurrences with up to 9 following tokens. distinct = distinct argv shapes; non-trivial = the occurrence takes at least one detached token or stops before max. Definitions with min<1 or max<min must panic (sub-check).",
 		Assumptions: []string{"int ranges a..b with a>=b in accepted positions are generated but only the universal monitors apply (statement silent)"},
 		Cases:       func(tier string) int { return tierN(tier, c02Grid+6000, c02Grid+400000) },
@@ -328,4 +400,17 @@ func shapeOf(argv []string) string {
 		sb.WriteByte(' ')
 	}
 	return sb.String()
+}
+
+// isC02Bundle - a single-dash token made of the one-letter keys of the C02 program (f flag, s string, m the multi-value option).
+func isC02Bundle(tok string) bool {
+	if len(tok) < 2 || tok[0] != '-' || tok[1] == '-' {
+		return false
+	}
+	for _, l := range tok[1:] {
+		if l != 'f' && l != 's' && l != 'm' {
+			return false
+		}
+	}
+	return strings.Contains(tok, "m")
 }
